@@ -542,24 +542,38 @@ example : (xrun (fun _ => true) (Sys.new 100 200)
     [.bwrite (List.replicate 150 7) [usizeMax], .base (.deliver 158), .bread]).1.r.front.cap = 100 := by
   decide +kernel
 
-/-- A blocking `write_message` whose flush loop lets the kernel take everything
-    leaves nothing behind (partial statement: the hypothesis on the schedule is
-    what the code does not check, see the counterexample). -/
-theorem C11_blocking_write_flushes_partial (c : Chan) (k : Nat) (h : ChanWF c)
-    (hk : c.back.data.length ≤ k) : (bwriteLoop [k] c []).1.back.data = [] :=
-  bwriteLoop_all c k [] h hk
+/-- (after fix 02dfc8c) A blocking `write_message` answers `Ok` only when the
+    whole frame - and everything that was pending before it - has been handed to
+    the kernel: for every schedule of partial accepts, if the call returns `Ok`
+    the writer's back buffer is empty. A send timeout is `Err(Write)` and keeps
+    the remainder (it is accounted as accepted by `C11_blocking_fifo_refinement`:
+    nothing is lost or duplicated, the next blocking write pushes it out). -/
+theorem C11_blocking_write_flushes (dec : Bytes → Bool) (s : Sys) (p : Bytes) (sched : List Nat)
+    (h : SysWF s) (hok : (xstep dec s (.bwrite p sched)).2 = .unit) :
+    (xstep dec s (.bwrite p sched)).1.w.back.data = [] := by
+  obtain ⟨hs, _, _⟩ := writeDelimited_spec s.w p h.1
+  simp only [xstep] at hok ⊢
+  rcases hr : s.w.writeDelimited p with ⟨w1, r1⟩
+  rw [hr] at hs hok
+  simp only at hs
+  rcases r1 with e | u
+  · simp at hok
+  · cases u
+    simp only at hok ⊢
+    apply bwriteLoop_ok_empty sched w1 [] (hs.wf h.1)
+    cases hb : (bwriteLoop sched w1 []).2.2
+    · rw [hb] at hok; simp at hok
+    · rfl
 
-/-- Genuine defect (confirmed on the real code, class
-    `blocking-write-ok-with-unsent-remainder`): the flush loop of
-    `write_message_blocking` answers *any* `sock.write` error (EINTR, a send
-    timeout) with `Ok(())`. Here the kernel takes 7 of 99 bytes and then refuses:
-    the call returns `Ok`, 92 bytes stay in the back buffer, the WRITABLE
-    interest is not armed, so not even the fair schedule sends them: the
-    message is accepted and never delivered unless another write follows. -/
-theorem C11_blocking_write_counterexample :
-    let res := xrun (fun _ => true) (Sys.new 100 100)
-      [.bwrite (List.replicate 91 120) [7], .base (.drain 20)]
-    res.2 = [.unit, .drained [] .nothingRead] ∧ res.1.w.back.data.length = 92 ∧ res.1.w.inW = false := by
+-- regression (former class `blocking-write-ok-with-unsent-remainder`): the kernel takes 7 of 99
+-- bytes and then times out: the call now reports `Err(Write)`, the 92 bytes are kept, and the
+-- next (complete) blocking write delivers both messages in order
+example : (xrun (fun _ => true) (Sys.new 100 200)
+      [.bwrite (List.replicate 91 120) [7], .bwrite [1, 2] [usizeMax], .base (.drain 20)]).2
+    = [.err .write, .unit, .drained [List.replicate 91 120, [1, 2]] .nothingRead] := by
+  decide +kernel
+
+example : (xrun (fun _ => true) (Sys.new 100 100) [.bwrite (List.replicate 91 120) [7]]).1.w.back.data.length = 92 := by
   decide +kernel
 
 /-! ### the `Buffer` API on its own -/
